@@ -429,7 +429,13 @@ func (fv *FnVerifier) ifaceContract(recvT types.Type, method string) *FuncContra
 	if !ok || n.Obj().Pkg() == nil {
 		return nil
 	}
-	if fc := fv.eng.cs.Funcs["iface#"+n.Obj().Pkg().Name()+"."+n.Obj().Name()+"."+method]; fc != nil {
+	ikey := n.Obj().Pkg().Name() + "." + n.Obj().Name() + "." + method
+	if fv.fc != nil {
+		if fc := fv.eng.cs.Funcs["iface#"+fv.fc.PkgPath+"#"+ikey]; fc != nil {
+			return fc
+		}
+	}
+	if fc := fv.eng.cs.Funcs["iface#"+ikey]; fc != nil {
 		return fc
 	}
 	// interface declared in the package that holds the contract file: undotted receiver type
@@ -491,10 +497,21 @@ func (fv *FnVerifier) callWrites(c *ssa.CallCommon) (keys []string, all bool) {
 	tmp := &FnVerifier{eng: fv.eng, fn: fn, fc: fc, mode: fv.mode, q: NewQuery(fv.mode), env: map[ssa.Value]Val{}, arrSort: fv.arrSort, arrBase: fv.arrBase,
 		names: map[string]Val{}, nameCount: map[string]int{}, notes: map[string]bool{}, strLits: map[string]string{}, structSeen: map[string]bool{}, axiomsDone: map[string]bool{}}
 	// declarations made while resolving the targets must land in the real query (struct sorts referenced by heap arrays)
-	tmp.q = fv.q
-	tmp.structSeen = fv.structSeen
 	tmp.strApps = map[string]string{}
 	tmp.matTypes = fv.matTypes
+	defer func() {
+		for _, text := range tmp.q.sorts {
+			const pre = "(declare-datatypes (("
+			if strings.HasPrefix(text, pre) {
+				rest := text[len(pre):]
+				if i := strings.Index(rest, " "); i > 0 {
+					name := rest[:i]
+					fv.q.declareSort(name, text)
+					fv.structSeen[name] = true
+				}
+			}
+		}
+	}()
 	dst := &State{heap: map[string]string{}, locks: map[string]string{}, alloc: "a"}
 	names := map[string]Val{}
 	sig := fn.Signature
